@@ -1113,3 +1113,9 @@ def neighbors(c, rng):
             yield " ".join(f[:-1] + [hex_tok(b[:t])])
         for _ in range(100):
             yield " ".join(f[:-1] + [hex_tok(mutate(rng, b))])
+
+
+def known_needs_model(c):
+    """c13x.* ops drive surfaces that are not modelled (the model side is the constant
+    `alive`), so a listed finding there is matched by its panic site alone"""
+    return not c.line.startswith("c13x.")
